@@ -5,4 +5,4 @@ B=$(mktemp -d /tmp/kv_baseline_XXXXXX)
 trap 'rm -rf "$B"' EXIT
 cmake -G Ninja -S /repo -B "$B" -DCMAKE_BUILD_TYPE=RelWithDebInfo >/dev/null
 cmake --build "$B" -j16 >/dev/null
-ctest --test-dir "$B" -j8 --timeout 900
+ctest --test-dir "$B" -j8 --timeout 900 < /dev/null   # the CLI tests read standard input when it is not a terminal
